@@ -458,9 +458,19 @@ def setop_chain(rng, qual=lambda t: t):
         w = r.choice(['', '', '', f' WHERE {al}.id > 1', f' WHERE {al}.{col} IS NOT NULL', f' WHERE {al}.id < 4'])
         parts.append(f'SELECT {al}.{col} AS v FROM {qual(t)} AS {al}{w}')
     text = parts[0]
+    if r.random() < 0.35:
+        # the last two operands grouped by parentheses on the right: `a op (b op c)` is not `(a op b) op c` for EXCEPT, mixed operators, ALL
+        for i, op in enumerate(ops[:-1]):
+            text += f' {op} {parts[i + 1]}' if i < len(ops) - 2 else f' {op} ({parts[i + 1]} {ops[-1]} {parts[i + 2]})'
+        return text, ops + ['right-nested']
     for i, op in enumerate(ops):
         text += f' {op} {parts[i + 1]}'
     return text, ops
+
+
+def reference_text(text):
+    """SQLite does not read a parenthesised operand of a set operation; `x op (y)` is written `x op SELECT * FROM (y)` for it."""
+    return re.sub(r'\b(UNION ALL|UNION|EXCEPT|INTERSECT) \(', r'\1 SELECT * FROM (', text)
 
 
 def setop_trailing(rng, qual=lambda t: t):
